@@ -1,6 +1,7 @@
 import TR.Lemmas.Reconnect
 import TR.Lemmas.ReconnectHistory
 import TR.Lemmas.ReconnectChain
+import TR.Lemmas.ReconnectEntry
 /-!
 # C16 — reconnect retries only connection failures, a bounded number of times
 
@@ -9,7 +10,10 @@ including 0; any policy: none, fixed, exponential, randomised (`jitter`: any del
 envelope), custom (any function); `retry_on_reconnect` on/off; any predicate `reconn`, the
 constant `true` standing for "no predicate"), every operation list `ops` (any number of requests
 sharing the layer, any poll / advance / cancel / probe order), every script of inner outcomes
-(ok, reconnectable error, other error, panic, never; any latency).
+(ok, reconnectable error, other error, panic, never; any latency), every readiness behaviour of the
+wrapped service (`Op.inner`, at any time: a recovery time after each call during which `poll_ready` is
+pending, and scripted `poll_ready` answers ready / error — for the callers' readiness polls and for the
+call futures' own after a back-off, `Phase::Readying`).
 
 `st` is the record of request `c` in the reached state; `st.calls` is the ghost list of its inner
 calls, latest first (each was emitted as an `inner_call c k` event when it was made).
@@ -85,14 +89,54 @@ request has a result `r`, `r` is the function `expected` of its latest call `h` 
 calls: `ok h.k` if `h` succeeded; otherwise, for `h`'s error `(kd, h.k)`: `ServiceError` if the
 predicate rejects `kd`, else `MaxAttemptsExceeded{attempts = #calls}` if `#calls > max_attempts`,
 else `ConnectionFailed` if the policy is `none`, else `ConnectionFailedNoRetry` — and no earlier
-call of the request succeeded. -/
+call of the request succeeded.
+
+Two more ways a request ends, both through the inner service's READINESS (`poll_ready`), as the code has them:
+* `notReady`: the caller found the service not ready and made no call at all (no call future exists);
+* `readyErr` (`Phase::Readying`, service.rs:210-220): the latest call ended with a reconnectable error, the request had
+  attempts left, a policy and `retry_on_reconnect` (`expected … = none`: it went on), it backed off — and then the inner
+  service answered the readiness poll with an error: the request returns `ServiceError` wrapping THAT readiness error;
+  the error of the latest call is dropped. (The readiness error is the last error the inner service produced, so the
+  property's "wrapping the last inner error" is met in that reading; it is not the error of the last CALL.) -/
 theorem returns_first_success_or_wraps_last (cfg : Cfg) (ops : List Op) (c : Nat) (st : Caller) (r : RRes)
     (h : lookup (run cfg ops).callers c = some st) (hr : st.result = some r) :
-    ∃ hd tl, st.calls = hd :: tl ∧ expected cfg hd st.calls.length = some r ∧
+    (r = .notReady ∧ st.calls = []) ∨
+    ∃ hd tl, st.calls = hd :: tl ∧
+      (expected cfg hd st.calls.length = some r ∨
+        (r = .readyErr ∧ expected cfg hd st.calls.length = none ∧
+          ∃ kd, hd.step.out = .err kd ∧ cfg.reconn kd = true)) ∧
       ∀ p ∈ tl, ∃ kd, p.step.out = .err kd ∧ cfg.reconn kd = true := by
   have hg := good_reachable cfg ops c st h
-  obtain ⟨_, hd, tl, hc, he⟩ := hg.final r hr
-  exact ⟨hd, tl, hc, he, chain_tail_errors (hc ▸ hg.chain)⟩
+  rcases (hg.final r hr).2 with h0 | ⟨hd, tl, hc, he⟩
+  · exact Or.inl h0
+  · exact Or.inr ⟨hd, tl, hc, he, chain_tail_errors (hc ▸ hg.chain)⟩
+
+/-- the same for a request that did not end through the inner service's readiness: the result is `expected` of the
+latest call -/
+theorem returns_first_success_or_wraps_last_call (cfg : Cfg) (ops : List Op) (c : Nat) (st : Caller) (r : RRes)
+    (h : lookup (run cfg ops).callers c = some st) (hr : st.result = some r)
+    (h1 : r ≠ .notReady) (h2 : r ≠ .readyErr) :
+    ∃ hd tl, st.calls = hd :: tl ∧ expected cfg hd st.calls.length = some r ∧
+      ∀ p ∈ tl, ∃ kd, p.step.out = .err kd ∧ cfg.reconn kd = true := by
+  rcases returns_first_success_or_wraps_last cfg ops c st r h hr with h0 | ⟨hd, tl, hc, he, ht⟩
+  · exact absurd h0.1 h1
+  · rcases he with he | he
+    · exact ⟨hd, tl, hc, he, ht⟩
+    · exact absurd he.1 h2
+
+/-- **A readiness error is returned only after a back-off, and leaves the published state alone**: in the step in which
+request `c` returns `readyErr`, the published state does not change (it stays `Reconnecting` if `c` wrote it last:
+`state_not_connected_while_handling` up to that step). -/
+theorem readiness_error_leaves_state (cfg : Cfg) (c : Nat) (st : Caller) (w : Shared) (wake : Nat) (p : Caller × Shared)
+    (ht : transReadying c st w wake = some p) (hr : p.1.result = some .readyErr) (hlive : st.result = none) :
+    p.2.conn = w.conn ∧ p.2.writer = w.writer ∧ p.1.calls = st.calls ∧ p.1.phase = .done := by
+  unfold transReadying at ht
+  split at ht
+  · simp at ht
+  · split at ht
+    · simp at ht
+    · simp at ht; subst ht; simp [startCall, hlive] at hr
+    · simp at ht; subst ht; exact ⟨rfl, rfl, rfl, rfl⟩
 
 /-- reading of `expected`: a success result carries the serial of the latest call, which succeeded;
 an error result wraps exactly the error (kind, serial) of the latest call -/
@@ -225,10 +269,199 @@ theorem retries_only_accepted_heads (cfg : Cfg) (ops : List COp) (c : Nat) (st :
         r = .service kd hd.k) := by
   refine ⟨retries_only_reconnectable cfg _ c st h, ?_⟩
   intro hd tl kd r hc ho hk hr
-  obtain ⟨hd', tl', hc', he, _⟩ := returns_first_success_or_wraps_last cfg _ c st r h hr
-  rw [hc] at hc'
-  cases hc'
-  exact expected_rejected cfg _ _ kd r ho hk he
+  rcases returns_first_success_or_wraps_last cfg _ c st r h hr with h0 | ⟨hd', tl', hc', he, _⟩
+  · rw [hc] at h0; simp at h0
+  · rw [hc] at hc'
+    cases hc'
+    rcases he with he | ⟨_, he, _⟩
+    · exact expected_rejected cfg _ _ kd r ho hk (hc ▸ he)
+    · simp [expected, ho, hk] at he
+
+/-! ### construction paths, accessors, several layer values
+
+How the layer was built does not enter the model beyond the configuration it ends up with: `ReconnectConfig::builder()`,
+`ReconnectConfigBuilder::new()`, a clone of the configuration value, `ReconnectConfig::default()` /
+`ReconnectLayer::with_defaults()` / `ReconnectLayer::default()` (all three: `defaultCfg`) give a `Cfg`, and every theorem
+above holds for every `Cfg`. What follows is what the shortcuts and accessors add. -/
+
+/-- **`connection_errors_only()`**: the predicate it installs accepts exactly the errors whose `Display` text,
+lower-cased, contains "broken pipe", "connection reset", "connection aborted", "not connected" or "connection refused".
+Of the scripted kinds these are 4 "Broken pipe (os error 32)", 5 "Connection reset by peer (os error 104)", 6 "connection
+aborted", 7 "Transport endpoint is not connected (os error 107)", 8 "Connection refused (os error 111)", 11 "BROKEN PIPE",
+14 "upstream said: Connection Refused" — and not 9 "connection timed out", 10 "disconnected", 12 "connection  reset", 13
+"host unreachable", 15 "brokenpipe", nor a kind without text. -/
+theorem connection_errors_only_accepts (kd : Nat) : connAccepts kd = true ↔ kd ∈ [4, 5, 6, 7, 8, 11, 14] :=
+  connAccepts_iff kd
+
+/-- **With `connection_errors_only()` a request is retried only after an error whose text names a connection failure**:
+every inner call of a request other than its latest one ended with an error whose text (lower-cased) contains one of the
+five phrases. -/
+theorem retries_only_connection_errors (cfg : Cfg) (hp : cfg.reconn = connAccepts) (ops : List Op) (c : Nat) (st : Caller)
+    (h : lookup (run cfg ops).callers c = some st) :
+    ∀ p ∈ st.calls.tail, ∃ kd, p.step.out = .err kd ∧
+      ∃ ph ∈ connPhrases, hasSub ph.toList ((kindText kd).toList.map lowerAscii) = true := by
+  intro p hpm
+  obtain ⟨kd, ho, hk⟩ := retries_only_reconnectable cfg ops c st h p hpm
+  refine ⟨kd, ho, ?_⟩
+  rw [hp] at hk
+  simpa [connAccepts, connectionErrorsOnly, List.any_eq_true] using hk
+
+/-- **The default configuration never gives up**: with `ReconnectConfig::default()` (exponential 100 ms .. 5 s, unlimited
+attempts, retry, no predicate) a request that has a result has a success (or the inner service panicked, or failed a
+readiness poll); the delay before retry `n` is `min (100 ms · 2^n) 5 s` (`delay_is_policy`, `allowed_exp`). -/
+theorem default_config_never_gives_up (ops : List Op) (c : Nat) (st : Caller) (r : RRes)
+    (h : lookup (run defaultCfg ops).callers c = some st) (hr : st.result = some r) :
+    (∃ k, r = .ok k) ∨ r = .panic ∨ r = .readyErr ∨ r = .notReady := by
+  rcases returns_first_success_or_wraps_last defaultCfg ops c st r h hr with h0 | ⟨hd, _, _, he, _⟩
+  · exact Or.inr (Or.inr (Or.inr h0.1))
+  · rcases he with he | he
+    · rcases expected_default hd _ r he with h1 | h1
+      · exact Or.inl ⟨hd.k, h1⟩
+      · exact Or.inr (Or.inl h1)
+    · exact Or.inr (Or.inr (Or.inl he.1))
+
+/-- **The delay the configuration reports is the delay that is waited.** For a fixed, exponential or custom policy:
+the sleep before the retry that follows the `n`-th call of a request lasted exactly what
+`config().policy().delay_for_attempt(n)` answers when asked directly — nothing is added to it and there is no floor
+(a zero or sub-millisecond delay stays what it is). -/
+theorem reported_delay_is_the_delay_waited (cfg : Cfg) (ops : List Op) (c : Nat) (st : Caller)
+    (h : lookup (run cfg ops).callers c = some st) (hdet : cfg.policy.deterministic = true)
+    (later : List CallRec) (r p : CallRec) (tl : List CallRec) (hc : st.calls = later ++ r :: p :: tl) (obs : List Nat) :
+    ∃ sl, r.pre = some sl ∧ delayProbe cfg (tl.length + 1) obs = toString sl.delay ∧ sl.since + ceilMs sl.delay ≤ r.t := by
+  obtain ⟨sl, h1, _, h3, _, h5⟩ := delay_is_policy cfg ops c st h later r p tl hc
+  refine ⟨sl, h1, ?_, h5⟩
+  simp [delayProbe, deterministic_delay obs hdet h3]
+
+/-- **Nothing is waited beyond the delay.** Right after a poll of request `c` in any reachable state: if `c` is backing
+off, the end of its back-off (`failure instant + delay`, rounded up to the timer's millisecond) is still in the future. A
+request whose back-off is over has gone on to its retry within that poll; with a zero delay the retry is made by the very
+poll that handled the failure. -/
+theorem no_wait_beyond_the_delay (cfg : Cfg) (ops : List Op) (c : Nat) (obs : List Nat) (st' : Caller) (wake : Nat)
+    (h : lookup (run cfg (ops ++ [.poll c obs])).callers c = some st') (hph : st'.phase = .sleeping wake) :
+    (run cfg (ops ++ [.poll c obs])).sh.now < wake := by
+  have e : run cfg (ops ++ [.poll c obs]) = stepS cfg (run cfg ops) (.poll c obs) := by simp [run, List.foldl_append]
+  rw [e] at h ⊢
+  exact polled_sleeper_not_due cfg _ (good_reachable cfg ops) c obs st' wake h hph
+
+/-- … and a request that waits for the inner service's readiness after its back-off (`Phase::Readying`) waits only
+because the inner service is still recovering from a call (its `poll_ready` is pending): otherwise that poll would have
+made the retry — or ended the request with the readiness error. -/
+theorem retry_waits_only_for_inner_readiness (cfg : Cfg) (ops : List Op) (c : Nat) (obs : List Nat) (st' : Caller)
+    (wake : Nat) (h : lookup (run cfg (ops ++ [.poll c obs])).callers c = some st') (hph : st'.phase = .readying wake) :
+    wake ≤ (run cfg (ops ++ [.poll c obs])).sh.now ∧
+    (run cfg (ops ++ [.poll c obs])).sh.now < (run cfg (ops ++ [.poll c obs])).sh.busyUntil := by
+  have hw := timely_reachable cfg (ops ++ [.poll c obs]) c st' h wake hph
+  refine ⟨hw, ?_⟩
+  have e : run cfg (ops ++ [.poll c obs]) = stepS cfg (run cfg ops) (.poll c obs) := by simp [run, List.foldl_append]
+  rw [e] at h hw ⊢
+  rcases polled_readying_inner_pending cfg _ c obs st' wake h hph with h1 | h1
+  · omega
+  · exact h1
+
+/-- **The readiness poll comes after the back-off**: in every reachable state a request in `Readying` has its back-off
+behind it (`wake`, the end of the back-off, is not in the future) — the first test of the model's `transReadying` never
+fires. Together with `delay_is_policy`: the inner service's readiness is not even looked at before the policy's delay
+has passed. -/
+theorem readying_is_after_the_backoff (cfg : Cfg) (ops : List Op) (c : Nat) (st : Caller) (wake : Nat)
+    (h : lookup (run cfg ops).callers c = some st) (hph : st.phase = .readying wake) :
+    wake ≤ (run cfg ops).sh.now :=
+  timely_reachable cfg ops c st h wake hph
+
+/-- **The `result` events of the log are the requests' results** (clause 4 in the property's own observables): `result
+c r` is in the event log exactly when request `c` has the result `r` — so everything `returns_first_success_or_wraps_last`
+says about `st.result` is said about the event the caller sees. -/
+theorem result_event_iff (cfg : Cfg) (ops : List Op) (c : Nat) (r : RRes) :
+    REv.result c r ∈ (run cfg ops).sh.log ↔ ∃ st, lookup (run cfg ops).callers c = some st ∧ st.result = some r :=
+  resOK_reachable cfg ops c r
+
+/-- a request has at most one `result` event -/
+theorem result_event_unique (cfg : Cfg) (ops : List Op) (c : Nat) (r r' : RRes)
+    (h : REv.result c r ∈ (run cfg ops).sh.log) (h' : REv.result c r' ∈ (run cfg ops).sh.log) : r = r' := by
+  obtain ⟨st, hl, hr⟩ := (result_event_iff cfg ops c r).1 h
+  obtain ⟨st', hl', hr'⟩ := (result_event_iff cfg ops c r').1 h'
+  rw [hl] at hl'
+  cases hl'
+  rw [hr] at hr'
+  cases hr'
+  rfl
+
+/-- **`time_since_connected()` is always `None`.** `mark_connected` stores `Instant::now().elapsed()` — the time between two
+readings of the clock in the same step, 0 — and `time_since_connected` treats 0 as "never connected": whatever happened,
+however long ago the last success was. (The accessor therefore carries no information; modelled as it is.) -/
+theorem time_since_connected_is_none (cfg : Cfg) (ops : List Op) : timeSinceConnected (run cfg ops).sh = none := by
+  have := (foldl_count cfg ops init).1 rfl
+  unfold run
+  simp [timeSinceConnected, this]
+
+/-- **`attempts()` counts only the application's own `increment_attempts()`.** The service never increments the shared
+counter (its attempt count is per request, inside the call future) and resets it on every success: in every reachable
+state it is at most the number of `increment_attempts()` calls so far — 0 for an application that never calls it. -/
+theorem attempts_counts_only_the_applications_increments (cfg : Cfg) (ops : List Op) :
+    attemptsOf (run cfg ops) ≤ ops.countP isIncr := by
+  have := (foldl_count cfg ops init).2
+  simpa [attemptsOf, run, init] using this
+
+/-- `increment_attempts()` changes nothing but the counter: not the published connection state, not any request. -/
+theorem increment_attempts_only_counts (cfg : Cfg) (s : State) :
+    (stepS cfg s .incr).sh.attempts = s.sh.attempts + 1 ∧ (stepS cfg s .incr).sh.conn = s.sh.conn ∧
+    (stepS cfg s .incr).sh.log = s.sh.log ∧ (stepS cfg s .incr).callers = s.callers :=
+  incr_only_counts cfg s
+
+/-! #### several layer values
+
+Services of ONE layer value — and of clones of that layer value — share one connection state (that is what
+`ReconnectLayer::state()` monitors): everything above. A second layer value made from the same configuration
+(`ReconnectLayer::new(config.clone())`) is another instance: `Multi` keeps one `State` per layer value `j`; the instances
+share only the clock and the numbering of inner calls. `runM cfg ops` runs operations tagged with the layer value they go
+to; `instOf m j` is the instance of layer value `j`. -/
+
+/-- an operation on layer value `i` is the single-layer step on instance `i` … -/
+theorem each_layer_value_is_a_layer (cfg : Cfg) (m : Multi) (i : Nat) (op : Op) :
+    instOf (stepM cfg m (i, op)) i = stepS cfg (instOf m i) op :=
+  instOf_self cfg m i op
+
+/-- … and **leaves every other layer value alone**: its requests, its published connection state (and who wrote it), its
+event history, its attempts counter and `last_connected` are unchanged. A failure seen through one layer value does not
+take another one down; a success through one does not bring another one up. -/
+theorem layer_values_are_independent (cfg : Cfg) (m : Multi) (i j : Nat) (op : Op) (h : j ≠ i) :
+    (instOf (stepM cfg m (i, op)) j).callers = (instOf m j).callers ∧
+    (instOf (stepM cfg m (i, op)) j).sh.conn = (instOf m j).sh.conn ∧
+    (instOf (stepM cfg m (i, op)) j).sh.writer = (instOf m j).sh.writer ∧
+    (instOf (stepM cfg m (i, op)) j).sh.log = (instOf m j).sh.log ∧
+    (instOf (stepM cfg m (i, op)) j).sh.attempts = (instOf m j).sh.attempts ∧
+    (instOf (stepM cfg m (i, op)) j).sh.lastConn = (instOf m j).sh.lastConn := by
+  rw [instOf_other cfg m i j op h]
+  exact ⟨rfl, rfl, rfl, rfl, rfl, rfl⟩
+
+/-- every request of every layer value of a multi-layer run satisfies the per-request invariant from which the
+single-layer theorems are read off … -/
+theorem good_per_layer_value (cfg : Cfg) (ops : List (Nat × Op)) (j : Nat) : AllGood cfg (instOf (runM cfg ops) j) :=
+  multi_inv (P := AllGood cfg) cfg (fun _ _ _ h => h) (by intro c st h; simp [init, lookup] at h)
+    (fun _ op h => stepS_allGood op h) ops j
+
+/-- … in particular **at most `max_attempts + 1` inner calls per request, through whichever layer value** (built from
+whichever clone of the configuration) it was made, -/
+theorem calls_bounded_per_layer_value (cfg : Cfg) (ops : List (Nat × Op)) (j c : Nat) (st : Caller) (m : Nat)
+    (h : lookup (instOf (runM cfg ops) j).callers c = some st) (hm : cfg.maxAttempts = some m) :
+    st.calls.length ≤ m + 1 :=
+  (good_per_layer_value cfg ops j c st h).bound m hm
+
+/-- **retries only after connection failures**, -/
+theorem retries_only_reconnectable_per_layer_value (cfg : Cfg) (ops : List (Nat × Op)) (j c : Nat) (st : Caller)
+    (h : lookup (instOf (runM cfg ops) j).callers c = some st) :
+    ∀ p ∈ st.calls.tail, ∃ kd, p.step.out = .err kd ∧ cfg.reconn kd = true := by
+  have hg := good_per_layer_value cfg ops j c st h
+  cases hc : st.calls with
+  | nil => simp
+  | cons x xs => exact chain_tail_errors (hc ▸ hg.chain)
+
+/-- and **each layer value's published state is a function of ITS OWN history of completions**: it reads `Connected`
+exactly when the last event among {reconnectable inner error handled, success returned} of the requests made through that
+layer value is a success. -/
+theorem state_is_function_of_history_per_layer_value (cfg : Cfg) (ops : List (Nat × Op)) (j : Nat) :
+    (instOf (runM cfg ops) j).sh.conn = .connected ↔ linkUp cfg (instOf (runM cfg ops) j).sh.log = true :=
+  multi_inv (P := fun s => HistOK cfg s.sh) cfg (fun _ _ _ h => h) (by simp [HistOK, init, linkUp])
+    (fun _ op h => stepS_hist op h) ops j
 
 /-! ## non-vacuity -/
 
@@ -292,5 +525,62 @@ example :
       ∧ (lookup s.callers 2).map (fun st => (st.result, st.calls.length)) = some (some (.service 2 1), 1)
       ∧ (lookup s.callers 3).map (fun st => (st.result, st.calls.length)) = some (some (.ok 3), 2) := by
   decide
+
+/-- `retry_on_reconnect = false`: after the back-off the request returns `ConnectionFailedNoRetry` wrapping the error of
+its only call and the state reads Connected; policy `none`: `ConnectionFailed` at once, the state reads Disconnected. -/
+example :
+    let s := run { cfgA with retry := false } [.arrive 1 [⟨0, .err 1⟩, ⟨0, .ok⟩], .poll 1 [], .adv 10, .poll 1 []]
+    let s' := run { cfgA with policy := .none } [.arrive 1 [⟨0, .err 1⟩, ⟨0, .ok⟩], .poll 1 []]
+    (lookup s.callers 1).map (fun st => (st.result, st.calls.length)) = some (some (.noRetry 1 0), 1)
+      ∧ s.sh.conn = .connected
+      ∧ (lookup s'.callers 1).map (fun st => (st.result, st.calls.length)) = some (some (.connFailed 1 0), 1)
+      ∧ s'.sh.conn = .disconnected := by decide
+
+/-- The inner service's readiness (`Phase::Readying`): it recovers for 5 ms after every call and fails its third
+readiness poll. Request 1: first call at 0 fails reconnectably, back-off 10 ms (fixed), retry at 10 (the service has
+recovered), fails again, back-off until 20; the readiness poll at 20 is the third → `ServiceError(readiness error)`
+(`readyErr`), two calls made, state still Reconnecting. Request 2 arrives at 12 while the service recovers from the call
+at 10: refused (`notReady`), no call. -/
+example :
+    let s := run cfgA [.inner [.ready, .ready, .error] 5, .arrive 1 [⟨0, .err 1⟩, ⟨0, .err 1⟩, ⟨0, .ok⟩], .poll 1 [],
+                       .adv 10, .poll 1 [], .adv 2, .arrive 2 [⟨0, .ok⟩], .adv 8, .poll 1 []]
+    (lookup s.callers 1).map (fun st => (st.result, st.calls.map (fun r => (r.k, r.t)))) = some (some .readyErr, [(1, 10), (0, 0)])
+      ∧ (lookup s.callers 2).map (fun st => (st.result, st.calls.length)) = some (some .notReady, 0)
+      ∧ s.sh.conn = .reconnecting ∧ REv.readyErr ∈ s.sh.log ∧ REv.result 1 .readyErr ∈ s.sh.log := by decide
+
+/-- … and a retry that is due while the inner service still recovers waits for it: back-off 10 ms from 0, recovery 15 ms
+from the call at 0: polled at 10 the request is in `Readying`; the retry is made at 15. -/
+example :
+    let ops := [Op.inner [] 15, .arrive 1 [⟨0, .err 1⟩, ⟨0, .ok⟩], .poll 1 [], .adv 10, .poll 1 []]
+    (lookup (run cfgA ops).callers 1).map (·.phase) = some (.readying 10)
+      ∧ (lookup (run cfgA (ops ++ [.adv 5, .poll 1 []])).callers 1).map (fun st => (st.result, st.calls.map (·.t)))
+          = some (some (.ok 1), [15, 0]) := by decide
+
+/-- `connection_errors_only()`: "Broken pipe (os error 32)" (kind 4) is retried, "disconnected" (kind 10) and a plain
+error without text (kind 1) are not: `ServiceError` after one call. -/
+example :
+    let s := run { cfgA with policy := .fixed 0, reconn := connAccepts }
+      [.arrive 1 [⟨0, .err 4⟩, ⟨0, .ok⟩], .poll 1 [], .arrive 2 [⟨0, .err 10⟩, ⟨0, .ok⟩], .poll 2 [],
+       .arrive 3 [⟨0, .err 1⟩, ⟨0, .ok⟩], .poll 3 []]
+    (lookup s.callers 1).map (fun st => (st.result, st.calls.length)) = some (some (.ok 1), 2)
+      ∧ (lookup s.callers 2).map (fun st => (st.result, st.calls.length)) = some (some (.service 10 2), 1)
+      ∧ (lookup s.callers 3).map (fun st => (st.result, st.calls.length)) = some (some (.service 1 3), 1) := by
+  decide
+
+/-- Two layer values made from one configuration: a success through layer value 0, a failure being handled through
+layer value 1, nothing yet through layer value 2 — three different published states at the same instant; the inner calls
+are numbered across the layer values. The application's `increment_attempts()` on layer value 0 is reset by the next
+success there and does not show on layer value 1. -/
+example :
+    let m := runM cfgA [(0, .incr), (1, .incr), (0, .arrive 1 [⟨0, .ok⟩]), (0, .poll 1 []),
+                        (1, .arrive 2 [⟨0, .err 1⟩, ⟨0, .ok⟩]), (1, .poll 2 [])]
+    (instOf m 0).sh.conn = .connected ∧ (instOf m 1).sh.conn = .reconnecting ∧ (instOf m 2).sh.conn = .disconnected
+      ∧ attemptsOf (instOf m 0) = 0 ∧ attemptsOf (instOf m 1) = 1
+      ∧ (lookup (instOf m 1).callers 2).map (fun st => st.calls.map (·.k)) = some [1]
+      ∧ timeSinceConnected (instOf m 0).sh = none := by decide
+
+/-- A sub-millisecond delay is reported as it is (125 µs · 2 = 250 µs, no floor) and waited to the next timer tick. -/
+example : delayProbe { cfgA with policy := .exp 125000 400000 } 1 [] = "250000"
+    ∧ delayProbe { cfgA with policy := .exp 0 5000000000 } 3 [] = "0" ∧ ceilMs 250000 = 1 ∧ ceilMs 0 = 0 := by decide
 
 end TR.Props.C16
